@@ -30,6 +30,7 @@ enum Op {
     ChildExit, // the monitor makes the child exit now (code or signal fixed per case)
     Stop,      // job control: somebody stops the child (SIGSTOP); it is suspended, not terminated
     Cont,      // ... and continues it
+    SpawnOther, // the caller starts, and waits for, an unrelated command through the library
 }
 
 #[derive(Clone, Copy, Debug, PartialEq)]
@@ -154,9 +155,11 @@ fn gen_history(rng: &mut Rng) -> Vec<Op> {
             6 => Op::Terminate,
             7 => Op::Kill,
             8 | 9 => {
-                let s = match rng.below(4) {
+                let s = match rng.below(5) {
                     0 => 0,
                     1 => *rng.pick(&IGNORED_BY_DEFAULT),
+                    // not signal numbers at all: refused, and nothing whatever is sent
+                    4 => *rng.pick(&[-1, -246, 65, 100, 255, 256, 271, 265, 1000, 65545, i32::MAX, i32::MIN + 9]),
                     _ => loop {
                         let s = rng.range(1, 64) as i32;
                         if fatal(s) {
@@ -169,7 +172,7 @@ fn gen_history(rng: &mut Rng) -> Vec<Op> {
             10 => Op::Detach,
             11 => Op::ExternalReap,
             12 => {
-                if rng.chance(500) { Op::Stop } else { Op::ChildExit }
+                if rng.chance(500) { Op::Stop } else { Op::SpawnOther }
             }
             _ => Op::ChildExit,
         };
@@ -244,7 +247,7 @@ fn run_history(ctx: &mut Ctx, ops: &[Op], exit_how: (u8, u8), fl: &Flags, class:
     for (i, op) in ops.iter().enumerate() {
         // a stopped child neither obeys the monitor nor dies of a pending signal: it is continued before anything that
         // needs it to act; the stop lasts across the non-blocking queries in between
-        if stopped && !matches!(op, Op::Poll | Op::WaitTimeout(_) | Op::Pid | Op::ExitStatusQ | Op::Detach | Op::Stop) {
+        if stopped && !matches!(op, Op::Poll | Op::WaitTimeout(_) | Op::Pid | Op::ExitStatusQ | Op::Detach | Op::Stop | Op::SpawnOther) {
             set_stopped(pid, false);
             stopped = false;
             trace.push("(job control: child continued)".into());
@@ -260,6 +263,21 @@ fn run_history(ctx: &mut Ctx, ops: &[Op], exit_how: (u8, u8), fl: &Flags, class:
                 continue;
             }
             Op::Cont => continue,
+            Op::SpawnOther => {
+                // an unrelated launch has no business with this child: no system call about it, no change to what is known
+                let vchild = ctx.vchild.clone();
+                let m = run::monitored(move || {
+                    subprocess::Exec::cmd(&vchild).args(&["exit", "0"]).join().map(|s| format!("{:?}", s)).map_err(|e| e.to_string())
+                });
+                let evs: Vec<Ev> = m.events();
+                let about = syscalls_about(&evs, pid);
+                ctx.count("unrelated_launches_in_between", 1);
+                trace.push(format!("#{} unrelated command run through the library -> {:?}   syscalls about the child: {:?}", i, m.result, about));
+                if !about.is_empty() {
+                    viol(ctx, fl.c09, "C09/unrelated-launch-touches-the-child", "starting an unrelated command made system calls about this child (its status can be consumed behind the owner's back)", mk_w(&trace, J::arr_s(&about)));
+                }
+                continue;
+            }
             _ => {}
         }
         // make blocking calls safe: a wait on a running child is preceded by the child's exit
@@ -478,6 +496,24 @@ fn run_history(ctx: &mut Ctx, ops: &[Op], exit_how: (u8, u8), fl: &Flags, class:
                 } else if reaped_externally {
                     // the library has not found out yet: outside the statement (it may signal and get ESRCH)
                     ctx.count("signal_calls_unknown_external_reap(not judged)", 1);
+                } else if !(0..=64).contains(&signo) {
+                    // not a signal: the call is refused (by the library or by the kernel) and the child is not touched;
+                    // whatever reaches the kernel carries the number as given
+                    ctx.count("signal_calls_with_an_invalid_number", 1);
+                    let other: Vec<String> = kills.iter().filter(|e| e.kind != k::KILL || e.a[0] != pid as i64 || e.a[1] as i32 != signo).map(|e| ilog::fmt_ev(e)).collect();
+                    if !other.is_empty() {
+                        viol(ctx, fl.c10, "C10/invalid-number-sent-as-another-signal", &format!("send_signal({}) sent something else", signo), mk_w(&trace, J::arr_s(&other)));
+                    }
+                    if got == "Ok(())" {
+                        viol(ctx, fl.c10, "C10/invalid-number-accepted", &format!("send_signal({}) reported success", signo), mk_w(&trace, J::Null));
+                    }
+                    std::thread::sleep(Duration::from_millis(2));
+                    if truth == Truth::Running {
+                        if let Some(st) = kernel_status(pid, false) {
+                            truth = Truth::Dead(st);
+                            viol(ctx, fl.c10, "C10/invalid-number-killed-the-child", &format!("send_signal({}) terminated the child: {:?}", signo, st), mk_w(&trace, J::Null));
+                        }
+                    }
                 } else {
                     ctx.count("signal_calls_while_live", 1);
                     let ok = kills.len() == 1 && kills[0].kind == k::KILL && kills[0].a[0] == pid as i64 && kills[0].a[1] == signo as i64;
@@ -613,6 +649,60 @@ fn run_inner(ctx: &mut Ctx, fl: Flags) {
         ctx.distinct(&format!("core{}", sig));
         run_history(ctx, &ops, (b'K', sig as u8), &fl, "core-dump");
     });
+    // the status reported by the terminators that wait themselves (join, capture - also of detached commands and of
+    // pipelines): the child closes its streams, lives on for a while and only then terminates; what comes back is how
+    // it really terminated, never a status made up while it was still running
+    if fl.c09 {
+        let nt = ctx.n(240, 6000);
+        ctx.family("terminator-status", nt, |ctx, rng, i| {
+            run::begin_case();
+            let dir = ctx.scratch("lifet");
+            let by_signal = rng.chance(300);
+            let (op, truth) = if by_signal {
+                let s = loop {
+                    let s = rng.range(1, 31) as i32;
+                    if fatal(s) {
+                        break s;
+                    }
+                };
+                (format!("k{}", s), ExitStatus::Signaled(s as u8))
+            } else {
+                let c = rng.below(256);
+                (format!("x{}", c), ExitStatus::Exited(c as u32))
+            };
+            let linger = *rng.pick(&[0u64, 1, 5, 30, 120]);
+            let script = format!("w1:{}:100,c1,c2,s{},{}", rng.range(0, 3000), linger, op);
+            let how = ["capture", "detached-capture", "join", "detached-join", "pipeline-capture", "pipeline-join", "cloned-detached-capture"][(i % 7) as usize];
+            let e = subprocess::Exec::cmd(&ctx.vchild).args(&["io", "5", &script]).arg(dir.join("rep"));
+            let pass = subprocess::Exec::cmd(&ctx.vchild).args(&["stage", "0", "1", "0", "0", "0", "0"]).arg(dir.join("stage.rep"));
+            let m = run::monitored(move || -> Result<ExitStatus, String> {
+                match how {
+                    "capture" => e.capture().map(|c| c.exit_status).map_err(|e| e.to_string()),
+                    "detached-capture" => e.detached().capture().map(|c| c.exit_status).map_err(|e| e.to_string()),
+                    "cloned-detached-capture" => e.detached().clone().capture().map(|c| c.exit_status).map_err(|e| e.to_string()),
+                    "join" => e.stdout(subprocess::NullFile).join().map_err(|e| e.to_string()),
+                    "detached-join" => e.stdout(subprocess::NullFile).detached().join().map_err(|e| e.to_string()),
+                    // the scripted command is the last one: the pipeline's status is its status
+                    "pipeline-capture" => (pass | e).capture().map(|c| c.exit_status).map_err(|e| e.to_string()),
+                    _ => (pass | e).stdout(subprocess::NullFile).join().map_err(|e| e.to_string()),
+                }
+            });
+            ctx.count("terminator_statuses_compared", 1);
+            ctx.distinct(&format!("term|{}|{}|{}", how, linger, by_signal));
+            let w = J::obj().set("terminator", J::s(how)).set("child_script", J::s(&script)).set("result", J::s(&format!("{:?} {:?}", m.result, m.panic)));
+            match &m.result {
+                Some(Ok(s)) if *s == truth => {}
+                Some(Ok(s)) => ctx.violation(&format!("C09/wrong-status/terminator/{}", how), &format!("{} reported {:?}; the command closed its streams, ran on for {} ms and then terminated with {:?}", how, s, linger, truth), w),
+                Some(Err(e)) => ctx.violation(&format!("C09/terminator-failed/{}", how), &format!("{} failed: {}", how, e), w),
+                None => {
+                    if m.cert.is_some() || m.panic.is_some() {
+                        ctx.violation(&format!("C09/terminator-failed/{}", how), "hung or panicked", w);
+                    }
+                }
+            }
+            run::end_case();
+        });
+    }
     // random histories
     let n = ctx.n(3000, 100_000);
     ctx.family("histories", n, |ctx, rng, i| {
